@@ -173,10 +173,13 @@ type stableChecker struct {
 	invoked  map[string]bool // pkgpath + "." + method name called through an interface
 	retMemo  map[string]int
 	parMemo  map[string]int
+	// functions one of whose parameters was accepted as "allocated by every caller": the objects they write
+	// exist before THEIR invocation starts, so they must not be the root of a havoc
+	paramFresh map[*ssa.Function]bool
 }
 
 func (w *World) checkStables(decls []*stableDecl) {
-	sc := &stableChecker{w: w, sites: map[*ssa.Function][]ssa.CallInstruction{}, escapes: map[*ssa.Function]bool{}, invoked: map[string]bool{}, retMemo: map[string]int{}, parMemo: map[string]int{}}
+	sc := &stableChecker{w: w, sites: map[*ssa.Function][]ssa.CallInstruction{}, escapes: map[*ssa.Function]bool{}, invoked: map[string]bool{}, retMemo: map[string]int{}, parMemo: map[string]int{}, paramFresh: map[*ssa.Function]bool{}}
 	all := ssautil.AllFunctions(w.prog)
 	var fns []*ssa.Function
 	for fn := range all {
@@ -201,6 +204,9 @@ func (w *World) checkStables(decls []*stableDecl) {
 					} else if callee := cc.StaticCallee(); callee != nil {
 						sc.sites[callee] = append(sc.sites[callee], ci)
 					}
+				}
+				if _, isDbg := ins.(*ssa.DebugRef); isDbg {
+					continue
 				}
 				for _, op := range ins.Operands(nil) {
 					f, ok := (*op).(*ssa.Function)
@@ -409,6 +415,7 @@ func (w *World) checkStables(decls []*stableDecl) {
 	rev := map[*ssa.Function][]*ssa.Function{}
 	cg := cha.CallGraph(w.prog)
 	w.cg = cg
+	w.paramFresh = sc.paramFresh
 	for f, n := range cg.Nodes {
 		for _, e := range n.Out {
 			if e.Callee != nil && e.Callee.Func != nil {
@@ -419,6 +426,18 @@ func (w *World) checkStables(decls []*stableDecl) {
 	for _, fn := range fns {
 		for _, b := range fn.Blocks {
 			for _, ins := range b.Instrs {
+				if _, isDbg := ins.(*ssa.DebugRef); isDbg {
+					continue
+				}
+				if ci, isCall := ins.(ssa.CallInstruction); isCall && !ci.Common().IsInvoke() {
+					// the callee position is a call edge already; only function values among the arguments count
+					for _, a := range ci.Common().Args {
+						if f, ok := a.(*ssa.Function); ok {
+							rev[f] = append(rev[f], fn)
+						}
+					}
+					continue
+				}
 				for _, op := range ins.Operands(nil) {
 					if f, ok := (*op).(*ssa.Function); ok {
 						rev[f] = append(rev[f], fn)
@@ -454,7 +473,7 @@ func (w *World) stableIn(fam string, fn *ssa.Function) *stableDecl {
 	if d == nil || fn == nil {
 		return nil
 	}
-	if d.reach[fn] {
+	if d.reach[fn] || w.paramFresh[fn] {
 		return nil
 	}
 	return d
@@ -472,12 +491,12 @@ func (w *World) stableAt(fam string, unitFn *ssa.Function, r hidRec) *stableDecl
 		return w.stableIn(fam, unitFn)
 	}
 	for _, f := range r.roots {
-		if d.reach[f] {
+		if d.reach[f] || w.paramFresh[f] {
 			return nil
 		}
 	}
 	if r.selfFn != nil {
-		if _, bad := d.bad[r.selfFn]; bad {
+		if _, bad := d.bad[r.selfFn]; bad || w.paramFresh[r.selfFn] {
 			return nil
 		}
 	}
@@ -519,6 +538,9 @@ func (w *World) loopCallees(fn *ssa.Function, blocks map[*ssa.BasicBlock]bool) (
 	// function values / closures mentioned in the loop body may be handed to anybody
 	for b := range blocks {
 		for _, ins := range b.Instrs {
+			if _, isDbg := ins.(*ssa.DebugRef); isDbg {
+				continue
+			}
 			for _, op := range ins.Operands(nil) {
 				if f, ok := (*op).(*ssa.Function); ok && !seen[f] {
 					seen[f] = true
@@ -710,5 +732,6 @@ func (sc *stableChecker) freshParam(p *ssa.Parameter, fn *ssa.Function, depth in
 		}
 	}
 	sc.parMemo[key] = 1
+	sc.paramFresh[fn] = true
 	return true
 }
